@@ -1,13 +1,23 @@
+"""C05 - generated residues are one step apart, inside the box, never overlapping."""
 from gen import jobgen
 from checks import _world_a as wa
 
 PROP = "C05"
 LEVEL = "exploration"
-RULE = "tbd"
-ASSUMPTIONS = wa.ASSUMPTIONS
+RULE = ("seeded gen_coords runs with dense, tiny, cubic, non-cubic and density-derived boxes over-represented, user "
+        "grids, step factors, force limits, branched and cyclic residue graphs; invariants evaluated on EVERY position the "
+        "neighbour engine receives while the run proceeds (inside the box; start on a grid row; minimum-image step length "
+        "to the residue it is grown from; >= 0.1 nm to every positioned residue; 12-6 force from positioned non-neighbour "
+        "residues within the cut-off <= max force, computed by the reference model with true minimum-image vectors); "
+        "non-trivial = at least one residue was placed with other residues inside the cut-off; distinct = distinct "
+        "event-log digests")
+ASSUMPTIONS = wa.ASSUMPTIONS + ["where twice the step length reaches the smallest box edge the literal minimum-image reading "
+                                "is undefined; there the oracle demands that some periodic image of the displacement has the step length"]
 REAL_VS_STUB = wa.REAL_VS_STUB
-PROBES = wa.PROBES
-PROFILE = {}
+PROBES = wa.PROBES + ["placed_interacting_across_boundary", "step_longer_than_half_box", "user_grid"]
+PROFILE = {"box_modes": ["dense", "dense", "tiny", "cubic", "noncubic", "density"], "p_gs": 0.5, "p_sf": 0.5, "p_mf": 0.5,
+           "faults": ["step", "start", "overlap"], "n_entries": (1, 4), "max_molecules": 12,
+           "shapes": ["single", "linear", "linear", "star", "comb", "tree", "ring"]}
 
 
 def n_runs(tier):
@@ -16,11 +26,32 @@ def n_runs(tier):
 
 def gen_job(verif_seed, tier, index):
     job, st = jobgen.base_job(PROP, verif_seed, tier, index, PROFILE)
+    g = st.gen
+    if g.random() < 0.1:
+        # one short molecule in a box barely larger than a step: steps longer than half the box
+        from gen import topgen
+        spec = job["spec"]
+        spec["molecules"] = [[spec["molecules"][0][0], 1]]
+        size = max(topgen.est_size(rt) for rt in spec["restypes"].values())
+        edge = round(g.uniform(1.3, 1.9) * size + 0.2, 3)
+        job["opts"].pop("density", None)
+        job["opts"]["box"] = [edge, edge, edge]
+        job["tiny_box"] = True
+    if g.random() < 0.25:
+        jobgen.add_user_grid(job, g)
+    if g.random() < 0.15:
+        jobgen.add_coordinates(job, g, {"coord_modes": ["prefix", "meta_prefix", "res"]})
     return job
 
 
+def _tag(job, res):
+    if job.get("grid_points") is not None:
+        res["probes"]["user_grid"] = 1
+    return bool(res["probes"].get("placed_with_neighbours_in_cutoff"))
+
+
 def run_job(job):
-    return wa.run_and_tag(job, lambda j, r: True)
+    return wa.run_and_tag(job, _tag)
 
 
 reductions = jobgen.reductions
